@@ -778,7 +778,9 @@ impl JobServerHandle {
             if got_token {
                 return Ok(());
             }
-            backoff *= 2;
+            // Only min(1s, backoff) is ever slept; keep the variable bounded too, or
+            // after about a minute of waiting the doubling overflows and panics.
+            backoff = cmp::min(backoff * 2, Duration::from_secs(1));
             {
                 let has_token = {
                     let state = self.state.borrow();
